@@ -81,6 +81,7 @@ func runC02(p *Prog, r *Report) {
 	derefOwnershipRule(p, r, "C02.R11", chains)
 	allocatorContractRule(p, r, "C02.R12")
 	targetPointerNonNilRule(p, r, "C02.R13")
+	componentRecursionRule(p, r, "C02.R14")
 }
 
 // vocabularyRule (C02.R1, shared as C01.R8): the closed vocabulary of emitted operators and constructs.
